@@ -58,6 +58,10 @@ def run(tier, seed):
         run.extra["registry_assemblies"] = len(rr)
         if rr:
             ac.validate(run, "registry-assemblies", rr)
+    # generic history fuzzer: live objects used again and again (wrap, query, rotate by 0, edit in place, assemble)
+    from .. import scenario
+    sc = scenario.run(rng, 20 if q else 200)
+    run.validate("scenario-assemblies", "Trace_Assembly", sc["assembly"], None, sigfn=ac.asm_sig, describe=ac.asm_describe)
     return run.finish("TLC: ImplProduct = Formula on every rotation and argument order of the small worlds (3 miniature geometries); I->S: "
                       "assemblies over every distinct real geometry (26) and 5 synthetic ones, chain lengths 1-5, site-free random "
                       "targets/backbones/placeholders (exactly two sites per plasmid), random rotation of every plasmid, shuffled "
